@@ -158,6 +158,36 @@ func Helpers(seed uint64, n int) *Out {
 			nops += len(script)
 		}
 		derived := []int{}
+		// Extend: the extension map is the caller's; it may be larger than the receiver, it must come back
+		// unchanged, and the caller may go on using it (here: for one more schema)
+		argChanged := ""
+		extended := 0
+		doExtend := func(i int) {
+			k := 1 + r.Intn(2)
+			if r.P(30) && len(keysets[i])+1 < len(helperKeys) {
+				k = len(keysets[i]) + 1
+			}
+			sc, cf, ks := newFields(k)
+			before := fmt.Sprint(len(sc), ks)
+			schemas = append(schemas, schemas[i].Extend(sc))
+			extended = len(schemas) - 1
+			keysets = append(keysets, union(keysets[i], ks))
+			ops = append(ops, fmt.Sprintf("OExtend %d %s", i, cf))
+			var now []string
+			for _, key := range ks {
+				if _, ok := sc[key]; ok {
+					now = append(now, key)
+				}
+			}
+			if after := fmt.Sprint(len(sc), now); after != before && argChanged == "" {
+				argChanged = "Extend modified the Schema map it was given: " + before + " -> " + after
+			}
+			if r.P(35) {
+				schemas = append(schemas, z.Struct(sc))
+				keysets = append(keysets, ks)
+				ops = append(ops, "ONew "+cf)
+			}
+		}
 		// schemas are executed between the operations too (anything an execution leaves behind in a
 		// schema must not be inherited by, or withheld from, what is derived from it later)
 		execEarly := r.P(40)
@@ -189,11 +219,8 @@ func Helpers(seed uint64, n int) *Out {
 				keysets = append(keysets, ks)
 				ops = append(ops, "ONew "+cf)
 			case 61:
-				sc, cf, ks := newFields(1 + r.Intn(2))
-				schemas = append(schemas, schemas[i].Extend(sc))
-				keysets = append(keysets, union(keysets[i], ks))
-				ops = append(ops, fmt.Sprintf("OExtend %d %s", i, cf))
-				derived = append(derived, len(schemas)-1)
+				doExtend(i)
+				derived = append(derived, extended)
 			case 0, 1, 2:
 				tid++
 				f, opt := w.test(tid)
@@ -273,10 +300,7 @@ func Helpers(seed uint64, n int) *Out {
 					ops = append(ops, "ONew "+cf)
 					continue
 				}
-				sc, cf, ks := newFields(1 + r.Intn(2))
-				schemas = append(schemas, schemas[i].Extend(sc))
-				keysets = append(keysets, union(keysets[i], ks))
-				ops = append(ops, fmt.Sprintf("OExtend %d %s", i, cf))
+				doExtend(i)
 			case 7, 8:
 				j := r.Intn(len(schemas))
 				if k < len(script) {
@@ -296,6 +320,9 @@ func Helpers(seed uint64, n int) *Out {
 				xs = append(xs, "("+eng.CoqStr(f[0])+", "+f[1]+")")
 			}
 			obs = append(obs, fmt.Sprintf("(KO [%s] [%s] [%s])", strings.Join(xs, "; "), strings.Join(ts, "; "), strings.Join(ps, "; ")))
+		}
+		if argChanged != "" {
+			o.Failures = append(o.Failures, Failure{ID: len(o.Cases), Tags: []string{"fields"}, Detail: argChanged})
 		}
 		o.Add(fmt.Sprintf("ops=%d execs_between=%v", len(ops), nexec > 0), strings.Join(ops, ";"), fmt.Sprintf("(KC $ID [%s] [%s])", strings.Join(ops, "; "), strings.Join(obs, "; ")))
 	}
